@@ -38,6 +38,13 @@ def Known (g : List Stage) : Prop := ∀ s ∈ g, ∀ r ∈ s.reqs, r ∈ g.map 
 
 def NoSelfEdge (g : List Stage) : Prop := ∀ s ∈ g, s.ref ∉ s.reqs
 
+/-- the four conditions of a valid stage graph -/
+def Valid (g : List Stage) : Prop :=
+  (g.map (·.ref)).Nodup ∧ NoSelfEdge g ∧ Known g ∧ Acyclic g
+
+/-- example graph used by the non-vacuity examples: d ← {b, c} ← a, listed out of order -/
+def diamond : List Stage := [⟨4, [2, 3], true⟩, ⟨2, [1], true⟩, ⟨1, [], true⟩, ⟨3, [1], true⟩]
+
 /-! ### paths -/
 
 theorem Path.snoc {E : Nat → Nat → Prop} {a x y : Nat} (h : Path E a x) (e : E x y) : Path E a y := by
